@@ -86,14 +86,19 @@ class BoundsCase(Case):
 
     family = "config/bounds"
 
-    def __init__(self, cid, which, n=2):
-        self.id, self.which, self.n = cid, which, n
+    def __init__(self, cid, which, n=2, scaled=False):
+        self.id, self.which, self.n, self.scaled = cid, which, n, scaled
 
     def describe(self):
-        return f"{self.which} bounds, n={self.n}"
+        return f"{self.which} bounds, n={self.n}, variable scaler with symbolic (possibly negative) scales in the context: {self.scaled}"
 
     def inputs(self, env):
-        return {"lo": env.reals("lo", self.n, lo=-10, hi=10), "hi": env.reals("hi", self.n, lo=-10, hi=10)}
+        d = {"lo": env.reals("lo", self.n, lo=-10, hi=10), "hi": env.reals("hi", self.n, lo=-10, hi=10)}
+        if self.scaled:
+            d["s"] = env.reals("s", self.n, lo=-4, hi=4)
+            for j in range(self.n):
+                env.assume(Or(d["s"][j] >= Fraction(1, 4), d["s"][j] <= Fraction(-1, 4)))
+        return d
 
     def run(self, env, inp):
         from ropt.config.enopt import LinearConstraintsConfig, NonlinearConstraintsConfig, VariablesConfig
@@ -103,6 +108,8 @@ class BoundsCase(Case):
         class Info:
             context = None
 
+        if self.scaled:
+            Info.context = ens.make_transforms(var_scales=env.arr(inp["s"]))
         if self.which == "variables":
             obj = VariablesConfig.model_construct(initial_values=env.const(np.zeros(self.n), False), lower_bounds=lo,
                                                   upper_bounds=hi, types=None, mask=None)
@@ -117,6 +124,18 @@ class BoundsCase(Case):
         return {"lo": out.lower_bounds, "hi": out.upper_bounds, "frozen": out._is_immutable}
 
     def props(self, env, inp, oc):
+        if self.scaled:   # consistency is judged on the stored (optimizer-domain) bounds
+            tlo = [inp["lo"][i] / inp["s"][i] for i in range(self.n)]
+            thi = [inp["hi"][i] / inp["s"][i] for i in range(self.n)]
+            bad = Or(*[tlo[i] > thi[i] for i in range(self.n)])
+            if not oc.ok:
+                if isinstance(oc.exc, ValueError):
+                    return [("rejected_only_if_lower_exceeds_upper", bad)]
+                return [("no_internal_exception:" + type(oc.exc).__name__, SB(False))]
+            lo_, hi_ = np.asarray(vals(oc.value["lo"]), dtype=object), np.asarray(vals(oc.value["hi"]), dtype=object)
+            return [("accepted_only_if_consistent", Not(bad)),
+                    ("stored_bounds_are_ordered", all_of(lo_[i] <= hi_[i] for i in range(self.n))),
+                    ("arrays_write_protected", SB(not oc.value["lo"].flags.writeable and not oc.value["hi"].flags.writeable))]
         bad = Or(*[inp["lo"][i] > inp["hi"][i] for i in range(self.n)])
         if not oc.ok:
             if isinstance(oc.exc, ValueError):
@@ -248,6 +267,53 @@ def equivalent(a, b):
     return a == b
 
 
+class AliasCase(Case):
+    """Arrays handed to validation as read-only *views of writable memory*: the validated configuration must
+    own its data (changing the caller's buffer afterwards must not change the configuration)."""
+
+    family = "config/frozen/aliasing"
+
+    def __init__(self, cid, kind):
+        self.id, self.kind = cid, kind
+
+    def describe(self):
+        return f"input arrays are {self.kind}"
+
+    def inputs(self, env):
+        return {}
+
+    def run(self, env, inp):
+        from ropt.config.enopt import EnOptConfig
+
+        base = {k: np.array(v, dtype=np.float64) for k, v in
+                {"iv": [0.5, 1.5, 2.5], "ub": [4.0, 5.0, 6.0], "w": [1.0, 2.0, 1.0], "A": [[1.0, 0.0, 2.0]], "m": [0.1, 0.2, 0.3]}.items()}
+
+        def view(a):
+            if self.kind == "read-only view":
+                v = a[...]
+                v.setflags(write=False)
+                return v
+            if self.kind == "broadcast view":
+                return np.broadcast_to(a, a.shape)
+            return a
+        cfg = EnOptConfig.model_validate({
+            "variables": {"initial_values": view(base["iv"]), "upper_bounds": view(base["ub"])},
+            "realizations": {"weights": view(base["w"])},
+            "linear_constraints": {"coefficients": view(base["A"]), "lower_bounds": 0.0, "upper_bounds": 1.0},
+            "gradient": {"perturbation_magnitudes": view(base["m"])},
+        })
+        before = {p: a.copy() for p, a in walk(cfg) if isinstance(a, np.ndarray)}
+        for a in base.values():
+            a += 100.0
+        changed = [p for p, a in walk(cfg) if isinstance(a, np.ndarray) and not np.array_equal(a, before[p], equal_nan=True)]
+        return changed
+
+    def props(self, env, inp, oc):
+        if not oc.ok:
+            return [("no_internal_exception:" + type(oc.exc).__name__, SB(False))]
+        return [("configuration_owns_its_arrays", SB(not oc.value))]
+
+
 class FrozenCase(Case):
     """Real validated configurations: every reachable object and array rejects mutation; re-validation and the
     dump/validate round trip give an equivalent configuration.  (No solver variable: the structure is what is
@@ -326,6 +392,9 @@ def build_cases(tier):
         add(NormalizeCase, n, "objectives")
     for which in ("variables", "nonlinear", "linear"):
         add(BoundsCase, which, 2 if tier == "quick" else 3)
+    add(BoundsCase, "variables", 2, scaled=True)
+    for kind in ("plain arrays", "read-only view", "broadcast view"):
+        add(AliasCase, kind)
     for pt in itertools.product(("absolute", "relative"), repeat=2):
         add(PerturbationCase, pt)
     if tier == "thorough":
